@@ -866,9 +866,53 @@ def one(ctx, case, names, cases, impl_out, reqs):
         ctx.violation("c56-render-crash:" + type(e).__name__, case, repr(e)[:300])
 
 
+def directed_bound_matrix():
+    """always-run cases: executemany with three parameter sets hitting three existing rows,
+    a value-less bindparam() in SET only / WHERE only / both, whose value differs per row and
+    decides differently for the second row than for the first; every execution form,
+    paramstyle, page size and bind typing"""
+    table = [[1, None, 10, 1], [2, None, 10, 1], [3, None, 10, 1]]
+    params = [
+        {"row": [1, None, 111, 1], "binds": [7, 100]},   # WHERE 10 < 100: update
+        {"row": [2, None, 222, 1], "binds": [8, 5]},     # WHERE 10 < 5: leave alone
+        {"row": [3, None, 333, 1], "binds": [9, 50]},    # WHERE 10 < 50: update
+        {"row": [4, None, 444, 1], "binds": [6, 0]},     # no conflict: insert
+    ]
+    actions = {
+        "set": ["U", [[2, ["b", 0]]], ["T"]],
+        "where": ["U", [[2, ["e", 2]]], ["<", ["o", 2], ["b", 1]]],
+        "both": ["U", [[2, ["b", 0]]], ["<", ["o", 2], ["b", 1]]],
+        "where_sum": ["U", [[3, ["+", ["o", 3], ["k", 1]]]], ["!", ["+", ["b", 1], ["k", 0]], ["k", 5]]],
+    }
+    out = []
+    i = 0
+    for place, act in actions.items():
+        for form in ("rows", "ret", "retsort"):
+            for paramstyle in ("qmark", "named", "numeric"):
+                for page in (1000, 2, 1):
+                    for coltype, bptype in (("int", "int"), ("int", "none"), ("bindexpr", "none"), ("both", "decorated")):
+                        i += 1
+                        out.append(
+                            {
+                                "directed": place,
+                                "uniques": [[[0], []]],
+                                "clauses": [{"target": [[0], []], "action": act}],
+                                "table": table,
+                                "params": params,
+                                "form": form,
+                                "page": page,
+                                "paramstyle": paramstyle,
+                                "coltype": coltype,
+                                "bptype": bptype,
+                                "seed": 1000 + i,
+                            }
+                        )
+    return out
+
+
 def run(ctx):
     ctx.rule = (
-        "random: 4-column table with PK and 0-2 further unique constraints (single / composite), 0-4 existing rows, 1-6 (14 thorough) parameter sets with keys from a "
+        "directed (always run): 432 cases = value-less bindparam() in SET only / WHERE only / both / WHERE expression x {executemany, +RETURNING, +RETURNING sorted} x 3 paramstyles x page sizes {1000, 2, 1} x 4 bind typings, three conflicting rows whose own value decides differently from the first row's; random: 4-column table with PK and 0-2 further unique constraints (single / composite), 0-4 existing rows, 1-6 (14 thorough) parameter sets with keys from a "
         "small pool (conflicts on one or several constraints, NULLs), 1-3 ON CONFLICT clauses (+ optional target-less DO NOTHING), SET/WHERE expressions over "
         "excluded / table / literal / bindparam; forms: single, executemany, executemany+RETURNING (batched, shuffled), executemany+RETURNING sorted; "
         "paramstyles qmark/named/numeric; non-trivial = at least one parameter set conflicts; distinct = distinct case"
@@ -877,6 +921,9 @@ def run(ctx):
     ctx.trusted.append("PostgreSQL / MySQL upsert semantics: documented behaviour, never executed")
     n = 900 if ctx.tier == "quick" else 10000
     names, cases, impl_out, reqs = [], [], [], []
+    for case in directed_bound_matrix():
+        ctx.count("directed=" + case["directed"])
+        one(ctx, case, names, cases, impl_out, reqs)
     for _ in range(n):
         one(ctx, gen_case(ctx.rng, ctx.tier), names, cases, impl_out, reqs)
     traverse_obligations(ctx)
